@@ -274,6 +274,18 @@ func check(id, tier string) int {
 			cmd.Stdout = ef
 			cmd.Stderr = ef
 			cmd.Env = os.Environ()
+			if os.Getenv("GOMAXPROCS") == "" {
+				// avoid oversubscribing the machine: 16 shards x 16 Ps makes
+				// goroutines of timing-sensitive scenarios starve for seconds
+				gmp := 32 / nshards
+				if gmp < 2 {
+					gmp = 2
+				}
+				if gmp > 16 {
+					gmp = 16
+				}
+				cmd.Env = append(cmd.Env, fmt.Sprintf("GOMAXPROCS=%d", gmp))
+			}
 			if p.Race {
 				cmd.Env = append(cmd.Env, "GORACE=halt_on_error=0 log_path="+filepath.Join(runDir, fmt.Sprintf("race%d", i)))
 			}
@@ -633,6 +645,9 @@ func raceTopFrames(rep string) (string, string) {
 }
 
 func replay(path string) int {
+	if !filepath.IsAbs(path) {
+		path = filepath.Join(verifDir, path)
+	}
 	b, err := os.ReadFile(path)
 	if err != nil {
 		fatal("%v", err)
